@@ -24,6 +24,7 @@ import (
 	"strings"
 	"time"
 
+	"github.com/compose-spec/compose-go/v2/loader"
 	"github.com/compose-spec/compose-go/v2/paths"
 
 	"verifharness/core"
@@ -34,6 +35,7 @@ import (
 // the machine is shared with other checks: a case that has not answered after a minute is a hang, not before
 const c12Timeout = 60 * time.Second
 
+var c12ScratchCwd string
 var c12FsChecked = false
 var c12FsCollision = ""
 
@@ -41,7 +43,27 @@ var c12FsCollision = ""
 // otherwise utils.ResolveSymbolicLink (develop.watch) would consult a real directory entry.
 var c12Roots = []string{"/vw", "/vh", "/vabs", "/vo"}
 
+var c12OrigHome, c12OrigCwd string
+var c12HadHome bool
+
+// c12Restore puts the process environment back (HOME, working directory): the child processes are shared.
+func c12Restore() {
+	if c12HadHome {
+		os.Setenv("HOME", c12OrigHome)
+	} else {
+		os.Unsetenv("HOME")
+	}
+	if c12OrigCwd != "" {
+		os.Chdir(c12OrigCwd)
+	}
+}
+
 func c12Prepare(home string) string {
+	c12OrigHome, c12HadHome = os.LookupEnv("HOME")
+	c12OrigCwd, _ = os.Getwd()
+	if c12ScratchCwd != "" {
+		os.Chdir(c12ScratchCwd)
+	}
 	if !c12FsChecked {
 		c12FsChecked = true
 		for _, r := range c12Roots {
@@ -53,6 +75,7 @@ func c12Prepare(home string) string {
 		if base := os.Getenv("VERIF_SCRATCH"); base != "" {
 			d := filepath.Join(base, fmt.Sprintf("cwd-%d", os.Getpid()), "p", "q", "r")
 			if os.MkdirAll(d, 0o755) == nil {
+				c12ScratchCwd = d
 				os.Chdir(d)
 			}
 		}
@@ -121,6 +144,7 @@ func c12Resolve(tree any, wd string, remotes []string) (map[string]any, any) {
 func realResolve(raw json.RawMessage) any {
 	var a resolveArgs
 	json.Unmarshal(raw, &a)
+	defer c12Restore()
 	if c := c12Prepare(a.Home); c != "" {
 		return map[string]any{"bad": "fs-collision " + c}
 	}
@@ -419,6 +443,7 @@ func init() {
 		Real: func(raw json.RawMessage) any {
 			var a pArgs
 			json.Unmarshal(raw, &a)
+			defer c12Restore()
 			c12Prepare(a.Home)
 			return map[string]any{"remote": paths.VerifIsRemoteContext(a.P), "expand": paths.ExpandUser(a.P)}
 		},
@@ -432,6 +457,7 @@ func init() {
 		Real: func(raw json.RawMessage) any {
 			var a attrArgs
 			json.Unmarshal(raw, &a)
+			defer c12Restore()
 			if c := c12Prepare(a.Home); c != "" {
 				return map[string]any{"bad": "fs-collision " + c}
 			}
@@ -483,6 +509,7 @@ func init() {
 		Real: func(raw json.RawMessage) any {
 			var a resolveArgs
 			json.Unmarshal(raw, &a)
+			defer c12Restore()
 			if c := c12Prepare(a.Home); c != "" {
 				return map[string]any{"bad": "fs-collision " + c}
 			}
@@ -541,6 +568,7 @@ func init() {
 		Real: func(raw json.RawMessage) any {
 			var a resolveArgs
 			json.Unmarshal(raw, &a)
+			defer c12Restore()
 			if c := c12Prepare(a.Home); c != "" {
 				return map[string]any{"bad": "fs-collision " + c}
 			}
@@ -591,6 +619,7 @@ func init() {
 		Real: func(raw json.RawMessage) any {
 			var a composeArgs
 			json.Unmarshal(raw, &a)
+			defer c12Restore()
 			if c := c12Prepare(a.Home); c != "" {
 				return map[string]any{"bad": "fs-collision " + c}
 			}
@@ -650,65 +679,227 @@ func init() {
 		},
 	})
 
-	// ---- oracle: idempotence of develop.watch paths through real symbolic links (file system = real, in a temp dir)
+	// ---- oracle: develop.watch paths through real symbolic links (file system = real, in a temp dir):
+	// the resolved path is absolute, it is the physical path (every symbolic-link component replaced, whatever the
+	// link's target looks like: absolute, relative, a chain of links), and resolving again changes nothing.
+	// The expectation is computed here with Lstat/EvalSymlinks on the longest existing prefix, independently of utils.
 	core.Register("c12.symlink", &core.CheckDef{
 		Timeout: c12Timeout,
 		Real: func(raw json.RawMessage) any {
-			var a struct {
-				Nested bool `json:"nested"`
-			}
+			var a symlinkArgs
 			json.Unmarshal(raw, &a)
-			root, err := core.Materialize(map[string]string{"b/keep": "", "d/x/keep": ""})
+			files := map[string]string{}
+			for _, d := range a.Dirs {
+				files[d+"/.keep"] = ""
+			}
+			root, err := core.Materialize(files)
 			defer os.RemoveAll(root)
 			if err != nil {
 				return map[string]any{"bad": err.Error()}
 			}
-			// a -> b ; (nested) b/c -> d
-			if err := os.Symlink(filepath.Join(root, "b"), filepath.Join(root, "a")); err != nil {
-				return map[string]any{"bad": err.Error()}
-			}
-			if a.Nested {
-				if err := os.Symlink(filepath.Join(root, "d"), filepath.Join(root, "b", "c")); err != nil {
+			for _, l := range a.Links {
+				target := l[1]
+				if strings.HasPrefix(target, "$ROOT") {
+					target = root + strings.TrimPrefix(target, "$ROOT")
+				}
+				os.MkdirAll(filepath.Dir(filepath.Join(root, l[0])), 0o755)
+				if err := os.Symlink(target, filepath.Join(root, l[0])); err != nil {
 					return map[string]any{"bad": err.Error()}
 				}
-			} else {
-				os.MkdirAll(filepath.Join(root, "b", "c", "x"), 0o755)
 			}
-			t, get := attrTree("develop.watch.path", "a/c/x")
-			m1, bad := c12Resolve(t, root, nil)
+			want, wantErr := c12PhysicalPath(filepath.Join(root, a.Wd, a.Path))
+			scrub := func(x string) string { return strings.ReplaceAll(x, root, "$ROOT") }
+			res := map[string]any{"want": scrub(want), "want_err": wantErr != nil}
+			t, get := attrTree("develop.watch.path", a.Path)
+			m1, bad := c12Resolve(t, filepath.Join(root, a.Wd), nil)
 			if bad != nil {
-				return bad
+				res["first_err"] = bad
+				return res
 			}
-			first := get(m1)
-			m2, bad := c12Resolve(core.DeepCopyVal(any(m1)), root, nil)
+			f, _ := get(m1).(string)
+			res["first"] = scrub(f)
+			m2, bad := c12Resolve(core.DeepCopyVal(any(m1)).(map[string]any), filepath.Join(root, a.Wd), nil)
 			if bad != nil {
-				return map[string]any{"second": bad}
+				res["second_err"] = bad
+				return res
 			}
-			second := get(m2)
-			f, _ := first.(string)
-			g, _ := second.(string)
-			return map[string]any{"first": strings.ReplaceAll(f, root, "$ROOT"), "second": strings.ReplaceAll(g, root, "$ROOT")}
+			g, _ := get(m2).(string)
+			res["second"] = scrub(g)
+			return res
 		},
 		Judge: func(args, real, drv json.RawMessage) *core.Verdict {
 			if v := core.CrashVerdict(real); v != nil {
 				return v
 			}
+			var a symlinkArgs
+			json.Unmarshal(args, &a)
 			var r struct {
-				First, Second, Bad string
-				SecondErr          json.RawMessage `json:"second_err"`
+				First     *string         `json:"first"`
+				Second    *string         `json:"second"`
+				Want      string          `json:"want"`
+				WantErr   bool            `json:"want_err"`
+				FirstErr  json.RawMessage `json:"first_err"`
+				SecondErr json.RawMessage `json:"second_err"`
+				Bad       string          `json:"bad"`
 			}
 			json.Unmarshal(real, &r)
 			if r.Bad != "" {
 				return core.Skip(r.Bad)
 			}
-			if r.First != r.Second {
-				return core.Fail("nonidempotent:develop.watch:nested-symlink", fmt.Sprintf("develop.watch path a/c/x resolves to %s, resolving again gives %s (utils.ResolveSymbolicLink replaces only the first symbolic link)", r.First, r.Second))
+			if r.WantErr {
+				// a dangling link or a link loop: an error is the right answer (no crash, see above)
+				if r.First != nil {
+					return core.Fail("symlink:"+a.Name+":no-error", fmt.Sprintf("watch path %q goes through a broken symbolic link but resolves to %s", a.Path, *r.First))
+				}
+				return nil
+			}
+			if r.First == nil {
+				return core.Fail("symlink:"+a.Name+":error", fmt.Sprintf("watch path %q: resolution fails (%s), expected %s", a.Path, r.FirstErr, r.Want))
+			}
+			if !strings.HasPrefix(*r.First, "$ROOT/") && *r.First != "$ROOT" {
+				return core.Fail("symlink:"+a.Name+":not-absolute", fmt.Sprintf("watch path %q resolves to %q, which is not an absolute path below the project (expected %s)", a.Path, *r.First, r.Want))
+			}
+			if *r.First != r.Want {
+				return core.Fail("symlink:"+a.Name+":wrong-path", fmt.Sprintf("watch path %q resolves to %s, the physical path is %s", a.Path, *r.First, r.Want))
+			}
+			if r.Second == nil || *r.Second != *r.First {
+				return core.Fail("nonidempotent:develop.watch:"+a.Name, fmt.Sprintf("watch path %q resolves to %s, resolving again gives %v %s", a.Path, *r.First, r.Second, r.SecondErr))
+			}
+			return nil
+		},
+	})
+
+	// ---- correspondence: filepath.Rel / filepath.Dir and the local resource loader's Dir (the base-directory logic)
+	core.Register("c12.rel", &core.CheckDef{
+		Timeout: c12Timeout,
+		Real: func(raw json.RawMessage) any {
+			var a struct{ Base, Targ string }
+			json.Unmarshal(raw, &a)
+			res := map[string]any{"dir": filepath.Dir(a.Base), "rel": nil}
+			if r, err := filepath.Rel(a.Base, a.Targ); err == nil {
+				res["rel"] = r
+			}
+			return res
+		},
+		DriverOp: "c12.rel",
+	})
+	core.Register("c12.ldir", &core.CheckDef{
+		Timeout: c12Timeout,
+		Real: func(raw json.RawMessage) any {
+			var a ldirArgs
+			json.Unmarshal(raw, &a)
+			files := map[string]string{}
+			for _, d := range a.Dirs {
+				files[d+"/.keep"] = ""
+			}
+			for _, f := range a.Files {
+				files[f] = ""
+			}
+			root, err := core.Materialize(files)
+			defer os.RemoveAll(root)
+			if err != nil {
+				return map[string]any{"bad": err.Error()}
+			}
+			orig := strings.ReplaceAll(a.Orig, "$ROOT", root)
+			got := loader.VerifLocalLoaderDir(filepath.Join(root, a.Lw), orig)
+			return map[string]any{"dir": got, "root": root, "dirs": c12AllDirs(root)}
+		},
+		DriverOp: "c12.ldir",
+		DriverArgs: func(args, real json.RawMessage) any {
+			var a ldirArgs
+			json.Unmarshal(args, &a)
+			var r struct {
+				Root string   `json:"root"`
+				Dirs []string `json:"dirs"`
+			}
+			json.Unmarshal(real, &r)
+			return map[string]any{"lw": filepath.Join(r.Root, a.Lw), "orig": strings.ReplaceAll(a.Orig, "$ROOT", r.Root), "dirs": r.Dirs}
+		},
+		Judge: func(args, real, drv json.RawMessage) *core.Verdict {
+			if v := core.CrashVerdict(real); v != nil {
+				return v
+			}
+			var r, d struct {
+				Dir *string `json:"dir"`
+				Bad string  `json:"bad"`
+			}
+			if json.Unmarshal(real, &r) != nil || json.Unmarshal(drv, &d) != nil {
+				return core.Disagree("malformed exchange")
+			}
+			if r.Bad != "" {
+				return core.Skip(r.Bad)
+			}
+			if r.Dir == nil || d.Dir == nil || *r.Dir != *d.Dir {
+				return core.Disagree(fmt.Sprintf("Paths.loaderDir ≠ localResourceLoader.Dir: real %v, model %v", r.Dir, d.Dir))
 			}
 			return nil
 		},
 	})
 
 	core.RegisterProp("C12", runC12)
+}
+
+type ldirArgs struct {
+	Lw    string   `json:"lw"`    // loader working directory, relative to the temp root
+	Orig  string   `json:"orig"`  // the path handed to Dir ($ROOT = the temp root)
+	Dirs  []string `json:"dirs"`  // directories that exist
+	Files []string `json:"files"` // files that exist
+}
+
+func c12AllDirs(root string) []string {
+	var l []string
+	filepath.Walk(root, func(p string, info os.FileInfo, err error) error {
+		if err == nil && info.IsDir() {
+			l = append(l, p)
+		}
+		return nil
+	})
+	sort.Strings(l)
+	return l
+}
+
+type symlinkArgs struct {
+	Name  string     `json:"name"`
+	Dirs  []string   `json:"dirs"`  // directories to create (relative to the temp root)
+	Links [][]string `json:"links"` // [link, target]; a target starting with $ROOT is absolute, anything else is stored as written
+	Wd    string     `json:"wd"`    // working directory, relative to the temp root
+	Path  string     `json:"path"`  // the develop.watch path as written
+}
+
+// c12PhysicalPath: the path with every symbolic link of its longest existing prefix resolved (the rest is appended as is).
+func c12PhysicalPath(p string) (string, error) {
+	p = filepath.Clean(p)
+	parts := strings.Split(strings.TrimPrefix(p, "/"), "/")
+	cur := "/"
+	for i, part := range parts {
+		next := filepath.Join(cur, part)
+		if _, err := os.Lstat(next); err != nil {
+			// `next` does not exist: everything up to `cur` is physical already
+			return filepath.Join(append([]string{cur}, parts[i:]...)...), nil
+		}
+		phys, err := filepath.EvalSymlinks(next)
+		if err != nil {
+			return "", err
+		}
+		cur = phys
+	}
+	return cur, nil
+}
+
+var c12SymlinkCases = []symlinkArgs{
+	{Name: "none", Dirs: []string{"p/a/c"}, Wd: "p", Path: "a/c/x"},
+	{Name: "abs-target", Dirs: []string{"p/b/c"}, Links: [][]string{{"p/a", "$ROOT/p/b"}}, Wd: "p", Path: "a/c/x"},
+	{Name: "rel-target", Dirs: []string{"p/real/src"}, Links: [][]string{{"p/link", "real"}}, Wd: "p", Path: "link/src"},
+	{Name: "rel-target-dotdot", Dirs: []string{"q/real/src", "p"}, Links: [][]string{{"p/link", "../q/real"}}, Wd: "p", Path: "./link/src/new"},
+	{Name: "rel-target-deep", Dirs: []string{"p/x/real/src"}, Links: [][]string{{"p/x/y", "real/src"}}, Wd: "p", Path: "x/y/f"},
+	{Name: "nested", Dirs: []string{"p/b", "p/d/x"}, Links: [][]string{{"p/a", "$ROOT/p/b"}, {"p/b/c", "$ROOT/p/d"}}, Wd: "p", Path: "a/c/x"},
+	{Name: "nested-rel", Dirs: []string{"p/b", "p/d/x"}, Links: [][]string{{"p/a", "b"}, {"p/b/c", "../d"}}, Wd: "p", Path: "a/c/x"},
+	{Name: "chain", Dirs: []string{"p/c/x"}, Links: [][]string{{"p/a", "b"}, {"p/b", "c"}}, Wd: "p", Path: "a/x/new"},
+	{Name: "last-component", Dirs: []string{"p/real"}, Links: [][]string{{"p/link", "real"}}, Wd: "p", Path: "link"},
+	{Name: "outside-wd", Dirs: []string{"o/real/s", "p"}, Links: [][]string{{"o/link", "real"}}, Wd: "p", Path: "../o/link/s"},
+	{Name: "wd-is-link", Dirs: []string{"real/s"}, Links: [][]string{{"p", "real"}}, Wd: "p", Path: "s/x"},
+	{Name: "dangling", Dirs: []string{"p"}, Links: [][]string{{"p/link", "missing"}}, Wd: "p", Path: "link/x"},
+	{Name: "loop", Dirs: []string{"p"}, Links: [][]string{{"p/a", "b"}, {"p/b", "a"}}, Wd: "p", Path: "a/x"},
 }
 
 type composeArgs struct {
@@ -1047,9 +1238,77 @@ func runC12(ctx *core.Ctx) {
 		ctx.Count("random-string")
 	}
 
-	ctx.Add("c12.symlink", map[string]any{"nested": false})
-	ctx.Add("c12.symlink", map[string]any{"nested": true})
-	ctx.Count("symlink")
+	// filepath.Rel / Dir: exhaustive over {/ . x y} (pairs), then the local loader's Dir on real directory trees
+	{
+		var all func(n int) []string
+		all = func(n int) []string {
+			l := []string{""}
+			prev := []string{""}
+			for i := 0; i < n; i++ {
+				var next []string
+				for _, p := range prev {
+					for _, a := range []string{"/", ".", "x", "y"} {
+						next = append(next, p+a)
+					}
+				}
+				l = append(l, next...)
+				prev = next
+			}
+			return l
+		}
+		ps := all(ctx.Pick(3, 5))
+		for _, b := range ps {
+			for _, t := range ps {
+				ctx.Add("c12.rel", map[string]string{"base": b, "targ": t})
+			}
+		}
+		ctx.Count("rel-exhaustive")
+		for i, n := 0, ctx.Pick(25000, 200000); i < n; i++ {
+			ctx.Add("c12.rel", map[string]string{"base": randPath(), "targ": randPath()})
+			ctx.Count("rel-random")
+		}
+		origs := []string{"sub/inc.yaml", "inc.yaml", "../sib/x.yaml", "sub", "sub/deep/", ".", "..", "missing/x.yaml", "$ROOT/p/sub/inc.yaml", "$ROOT/o/x.yaml",
+			"a//b/../c.yaml", "sub/deep/../inc.yaml", "../../x.yaml", "$ROOT/p", "$ROOT", "sub/file.yaml/x", "./sub/./inc.yaml", "é/x.yaml", "~/x.yaml", "C:/x.yaml"}
+		for _, lw := range []string{"p", "p/sub", "p/sub/..", "p/"} {
+			for _, o := range origs {
+				ctx.Add("c12.ldir", ldirArgs{Lw: lw, Orig: o, Dirs: []string{"p/sub/deep", "sib", "o", "p/é"}, Files: []string{"p/sub/inc.yaml", "p/inc.yaml", "p/sub/file.yaml"}})
+				ctx.Count("ldir")
+			}
+		}
+	}
+	for _, c := range c12SymlinkCases {
+		ctx.Add("c12.symlink", c)
+		ctx.Count("symlink:" + c.Name)
+	}
+	// seeded: random trees of directories and links (absolute / relative / upward targets), random watch paths through them
+	for i, n := 0, ctx.Pick(150, 4000); i < n; i++ {
+		names := []string{"a", "b", "c", "d"}
+		c := symlinkArgs{Name: "random", Wd: "p", Dirs: []string{"p"}}
+		for j, m := 0, 1+rng.Intn(3); j < m; j++ {
+			c.Dirs = append(c.Dirs, "p/"+pick(names)+"/"+pick(names))
+		}
+		for j, m := 0, 1+rng.Intn(3); j < m; j++ {
+			link := "p/" + pick(names)
+			if rng.Intn(2) == 0 {
+				link += "/" + pick(names)
+			}
+			var target string
+			switch rng.Intn(4) {
+			case 0:
+				target = "$ROOT/p/" + pick(names)
+			case 1:
+				target = pick(names)
+			case 2:
+				target = "../" + pick(names)
+			default:
+				target = pick(names) + "/" + pick(names)
+			}
+			c.Links = append(c.Links, []string{link, target})
+		}
+		c.Path = pick(names) + "/" + pick(names) + "/" + pick([]string{"x", "a", "b"})
+		ctx.Add("c12.symlink", c)
+		ctx.Count("symlink:random")
+	}
 
 	runC12Loads(ctx)
 }
